@@ -3,6 +3,7 @@
 //   c19_fourier conv <out.ndjson> <n-random> <tier>    exact integer/dyadic instances of the convolution filters
 //   c19_fourier dft  <out.ndjson> <max-total-size> <repeats> <max-table-length>   fourier / inverse_fourier / real-data transforms
 //   c19_fourier filt <out.ndjson> <n>                  separable Gaussian / Metz filters on piecewise constant data
+//   c19_fourier more <out.ndjson> <n>                  median/minimal/threshold/truncate/chained processors, ramp filter, array functions, parsing round trips
 // Number encodings: kernel and data values are integers times 2^-scale (exact in single precision);
 // results are logged as round(v * 2^k) together with the largest rounding residual in 2^-(k+20) units
 // ("res", 0 = every result is exactly representable at the scale) or, for the DFT routes, only rounded.
@@ -22,6 +23,16 @@
 #include "stir/SeparableGaussianArrayFilter.h"
 #include "stir/SeparableGaussianImageFilter.h"
 #include "stir/SeparableMetzArrayFilter.h"
+#include "stir/SeparableCartesianMetzImageFilter.h"
+#include "stir/MedianArrayFilter3D.h"
+#include "stir/MedianImageFilter3D.h"
+#include "stir/MinimalArrayFilter3D.h"
+#include "stir/ThresholdMinToSmallPositiveValueDataProcessor.h"
+#include "stir/ChainedDataProcessor.h"
+#include "stir/TruncateToCylindricalFOVImageProcessor.h"
+#include "stir/ArrayFunction.h"
+#include "stir/analytic/FBP2D/RampFilter.h"
+#include "stir/Coordinate3D.h"
 #include "stir/VoxelsOnCartesianGrid.h"
 #include "stir/numerics/fourier.h"
 #include "stir/Verbosity.h"
@@ -209,7 +220,14 @@ static void one_sep(vh::Trace& tr, const K1* ks, int sk, const A3& d, int sd, in
   out.fill(777.F);
   Array<3, float>* res = &in;
   bool err = vh::threw([&] {
-    if (via <= 1) {
+    if (via == 6) {          // three null pointers: "either all null (a trivial object) or all non-null"
+      VectorWithOffset<shared_ptr<ArrayFunctionObject<1, float>>> fs(3);
+      SeparableArrayFunctionObject<3, float> f(fs);
+      f(in);
+    } else if (via == 7) {   // default constructor, 2-argument call
+      SeparableArrayFunctionObject<3, float> f;
+      f(out, in); res = &out;
+    } else if (via <= 1) {
       VectorWithOffset<shared_ptr<ArrayFunctionObject<1, float>>> fs(3);
       for (int a = 0; a < 3; ++a) fs[a].reset(new ArrayFilter1DUsingConvolution<float>(kernel1d(ks[a].lo, ks[a].v, sk), BCV[ks[a].bc]));
       SeparableArrayFunctionObject<3, float> f(fs);
@@ -329,9 +347,9 @@ static void mode_conv(vh::Trace& tr, long nrandom, int tier, vh::Rng& rng) {
   const long nsep = nrandom / 2 + 40;
   for (long it = 0; it < nsep; ++it) {
     K1 ks[3];
-    int via = (int)(it % 6);
+    int via = (int)(it % 8);
     for (int a = 0; a < 3; ++a) {
-      const int len = rng.range(0, 3);
+      const int len = via >= 6 ? 0 : rng.range(0, 3);
       ks[a].lo = len == 0 ? 0 : rng.range(-2, 1);
       ks[a].v = rand_vals(rng, len, 5);
       if (len == 1 && rng.range(0, 2) == 0) ks[a].v[0] = 1;
@@ -358,7 +376,8 @@ static void mode_conv(vh::Trace& tr, long nrandom, int tier, vh::Rng& rng) {
         dn[a] = rng.range(1, w); dlo[a] = w0 + rng.range(0, w - dn[a]);
         on[a] = rng.range(1, w); olo[a] = w0 + rng.range(0, w - on[a]);
       } else {
-        dn[a] = rng.range(1, L[a]); dlo[a] = rng.range(-5, 5);
+        // one in three of these: data longer than the padded length (copied "using wrap-around")
+        dn[a] = rng.range(0, 2) == 0 ? rng.range(L[a] + 1, 2 * L[a] + 2) : rng.range(1, L[a]); dlo[a] = rng.range(-5, 5);
         on[a] = rng.range(1, L[a] + 2); olo[a] = rng.range(-7, 7);
       }
     }
@@ -521,8 +540,17 @@ static void mode_dft(vh::Trace& tr, long max_total, int repeats, vh::Rng& rng, i
 }
 
 // ------------------------------------------------------------------ mode filt
-struct FiltCfg { int kind; float fwhm[3], vox[3]; int mk[3]; };   // kind 0 gauss_array 1 gauss_image 2 metz_array
-static const char* FKN[3] = { "gauss_array", "gauss_image", "metz_array" };
+struct FiltCfg { int kind; float fwhm[3], vox[3]; int mk[3]; float power[3]; };   // kind 0 gauss_array 1 gauss_image 2 metz_array 3 metz_image (parsed)
+static const char* FKN[4] = { "gauss_array", "gauss_image", "metz_array", "metz_image" };
+static std::string metz_text(const FiltCfg& c) {
+  std::ostringstream t; t.precision(10);
+  t << "Separable Cartesian Metz Filter Parameters :=\n";
+  const char* ax[3] = { "z", "y", "x" };
+  for (int d = 0; d < 3; ++d) t << ax[d] << "-dir filter FWHM (in mm) := " << c.fwhm[d] << "\n" << ax[d] << "-dir filter Metz power := " << c.power[d] << "\n"
+                                << ax[d] << "-dir maximum kernel size := " << c.mk[d] << "\n";
+  t << "END Separable Cartesian Metz Filter Parameters :=\n";
+  return t.str();
+}
 
 struct SilenceStdout {   // SeparableMetzArrayFilter prints its kernels with printf
   int saved;
@@ -544,10 +572,19 @@ static void apply_filter(const FiltCfg& c, Array<3, float>& a) {
     if (g.set_up(image) != Succeeded::yes) throw std::runtime_error("set_up");
     if (g.apply(image) != Succeeded::yes) throw std::runtime_error("apply");
     a = image;
+  } else if (c.kind == 3) {
+    SeparableCartesianMetzImageFilter<float> m;
+    std::istringstream text(metz_text(c));
+    if (!m.parse(text)) throw std::runtime_error("parse");
+    VoxelsOnCartesianGrid<float> image(a, CartesianCoordinate3D<float>(0.F, 0.F, 0.F), CartesianCoordinate3D<float>(c.vox[0], c.vox[1], c.vox[2]));
+    SilenceStdout s;
+    if (m.set_up(image) != Succeeded::yes) throw std::runtime_error("set_up");
+    if (m.apply(image) != Succeeded::yes) throw std::runtime_error("apply");
+    a = image;
   } else {
     VectorWithOffset<float> f(1, 3), pw(1, 3); VectorWithOffset<int> mk(1, 3);
     BasicCoordinate<3, float> sd;
-    for (int d = 1; d <= 3; ++d) { f[d] = c.fwhm[d - 1]; pw[d] = 0.F; mk[d] = c.mk[d - 1]; sd[d] = c.vox[d - 1]; }
+    for (int d = 1; d <= 3; ++d) { f[d] = c.fwhm[d - 1]; pw[d] = c.power[d - 1]; mk[d] = c.mk[d - 1]; sd[d] = c.vox[d - 1]; }
     SilenceStdout s;
     SeparableMetzArrayFilter<3, float> m(f, pw, sd, mk);
     m(a);
@@ -555,19 +592,20 @@ static void apply_filter(const FiltCfg& c, Array<3, float>& a) {
 }
 static void mode_filt(vh::Trace& tr, long count, vh::Rng& rng) {
   for (long it = 0; it < count; ++it) {
-    FiltCfg c; c.kind = (int)(it % 3);
+    FiltCfg c; c.kind = (int)(it % 4);
+    for (int d = 0; d < 3; ++d) c.power[d] = c.kind >= 2 && (it / 4) % 2 == 1 ? (float)rng.range(0, 6) / 2.F : 0.F;   // Metz powers 0 .. 3
     // one axis may carry a long kernel, the others short ones or none (Metz kernels have long tails unless the FWHM is
     // several voxels, so there the other axes are mostly switched off)
     const int longax = rng.range(0, 2);
     int half[3];
     for (int d = 0; d < 3; ++d) {
       c.vox[d] = (float)rng.range(4, 16) / 4.F;                       // 1 .. 4 mm in quarters
-      const bool off = d == longax ? rng.range(0, 5) == 0 : (c.kind == 2 ? rng.range(0, 2) != 0 : rng.range(0, 2) == 0);
+      const bool off = d == longax ? rng.range(0, 5) == 0 : (c.kind >= 2 ? rng.range(0, 2) != 0 : rng.range(0, 2) == 0);
       if (off) { c.fwhm[d] = 0.F; c.mk[d] = -1; }
       else {
         float ratio;                                                   // FWHM in voxels
         if (d == longax) ratio = (float)rng.range(8, 40) / 8.F;       // 1 .. 5
-        else if (c.kind == 2) ratio = (float)rng.range(28, 36) / 8.F; // 3.5 .. 4.5
+        else if (c.kind >= 2) ratio = (float)rng.range(28, 36) / 8.F; // 3.5 .. 4.5
         else ratio = (float)rng.range(8, 16) / 8.F;                   // 1 .. 2
         c.fwhm[d] = ratio * c.vox[d];
         const int mkc = rng.range(0, 3);
@@ -623,9 +661,9 @@ static void mode_filt(vh::Trace& tr, long count, vh::Rng& rng) {
     const int ipos[3] = { n[0] / 2, n[1] / 2, n[2] / 2 };
     vh::Json j("MEAN");
     j.num("id", ++ev_id).str("filter", FKN[c.kind]);
-    std::vector<long long> fw(3), vx(3); std::vector<int> mk(3);
-    for (int a = 0; a < 3; ++a) { fw[a] = vh::fx(c.fwhm[a], 10); vx[a] = vh::fx(c.vox[a], 10); mk[a] = c.mk[a]; }
-    j.arr("fwhm", fw).arr("vox", vx).arr("mk", mk);
+    std::vector<long long> fw(3), vx(3), pw(3); std::vector<int> mk(3);
+    for (int a = 0; a < 3; ++a) { fw[a] = vh::fx(c.fwhm[a], 10); vx[a] = vh::fx(c.vox[a], 10); mk[a] = c.mk[a]; pw[a] = vh::fx(c.power[a], 10); }
+    j.arr("fwhm", fw).arr("vox", vx).arr("mk", mk).arr("power", pw);
     bool err = vh::threw([&] { apply_filter(c, data); });
     j.boolean("err", err);
     if (!err) {
@@ -638,8 +676,314 @@ static void mode_filt(vh::Trace& tr, long count, vh::Rng& rng) {
   }
 }
 
+
+// ------------------------------------------------------------------ mode more (beyond the property text)
+static VoxelsOnCartesianGrid<float> as_image(const Array<3, float>& a) {
+  return VoxelsOnCartesianGrid<float>(a, CartesianCoordinate3D<float>(0.F, 0.F, 0.F), CartesianCoordinate3D<float>(2.F, 1.5F, 1.F));
+}
+typedef DataProcessor<DiscretisedDensity<3, float>> Proc;
+
+static void one_med(vh::Trace& tr, bool median, int via, const int* r, const A3& d, int sd) {
+  Array<3, float> in = to_array<3>(d, sd);
+  Array<3, float> out(in.get_index_range());
+  out.fill(777.F);
+  Array<3, float>* res = &out;
+  bool trivial = false;
+  bool err = vh::threw([&] {
+    const Coordinate3D<int> rad(r[0], r[1], r[2]);
+    if (via <= 1) {
+      shared_ptr<ArrayFunctionObject<3, float>> f;
+      if (median) f.reset(new MedianArrayFilter3D<float>(rad)); else f.reset(new MinimalArrayFilter3D<float>(rad));
+      trivial = f->is_trivial();
+      if (via == 0) (*f)(out, in); else { (*f)(in); res = &in; }
+    } else {
+      MedianImageFilter3D<float> f(CartesianCoordinate3D<int>(r[0], r[1], r[2]));
+      VoxelsOnCartesianGrid<float> image = as_image(in), image_out = as_image(out);
+      if (f.set_up(image) != Succeeded::yes) throw std::runtime_error("set_up");
+      if (via == 2) { if (f.apply(image) != Succeeded::yes) throw std::runtime_error("apply"); in = image; res = &in; }
+      else { if (f.apply(image_out, image) != Succeeded::yes) throw std::runtime_error("apply"); out = image_out; }
+    }
+  });
+  vh::Json j("MED");
+  j.num("id", ++ev_id).str("kind", median ? "median" : "minimal").num("via", via).arr("r", v3(r)).arr("dlo", v3(d.lo)).arr("dn", v3(d.n)).arr("d", d.v).num("sd", sd)
+      .boolean("trivial", trivial).boolean("err", err);
+  if (!err) { long long rs = 0; j.arr("o", from_array<3>(*res, d.lo, d.n, sd + (median ? 1 : 0), &rs)).num("res", rs); }
+  tr.emit(j);
+}
+
+// a float exactly: odd mantissa (or 0) and binary exponent
+static void mant_exp(float v, long long& m, int& e) {
+  if (v == 0.F || !std::isfinite(v)) { m = 0; e = std::isfinite(v) ? 0 : 9999; return; }
+  int ex; const double fr = std::frexp((double)v, &ex);
+  m = (long long)std::ldexp(fr, 24); e = ex - 24;
+  while (m % 2 == 0) { m /= 2; ++e; }
+}
+static void one_thr(vh::Trace& tr, int via, const A3& d, int sd) {
+  Array<3, float> in = to_array<3>(d, sd);
+  Array<3, float> out(in.get_index_range());
+  out.fill(777.F);
+  Array<3, float>* res = &in;
+  bool err = vh::threw([&] {
+    ThresholdMinToSmallPositiveValueDataProcessor<DiscretisedDensity<3, float>> f;
+    VoxelsOnCartesianGrid<float> image = as_image(in), image_out = as_image(out);
+    if (via == 0) { if (f.apply(image) != Succeeded::yes) throw std::runtime_error("apply"); in = image; }
+    else { if (f.apply(image_out, image) != Succeeded::yes) throw std::runtime_error("apply"); out = image_out; res = &out; }
+  });
+  vh::Json j("THR");
+  j.num("id", ++ev_id).num("via", via).arr("dlo", v3(d.lo)).arr("dn", v3(d.n)).arr("d", d.v).num("sd", sd).boolean("err", err);
+  if (!err) {
+    std::vector<long long> om((size_t)d.size()); std::vector<int> oe((size_t)d.size());
+    int p[3];
+    for (long q = 0; q < d.size(); ++q) { d.pos(q, p); mant_exp(Acc<3, float>::at(*res, p), om[(size_t)q], oe[(size_t)q]); }
+    j.arr("om", om).arr("oe", oe);
+  }
+  tr.emit(j);
+}
+
+// a stage of a chain of data processors
+struct Stage { int t; K1 ks[3]; int sk; int r[3]; int rim; bool strict; };   // t 0 conv 1 median 2 trunc 3 none
+static shared_ptr<Proc> make_proc(const Stage& st) {
+  shared_ptr<Proc> p;
+  if (st.t == 0) {
+    VectorWithOffset<VectorWithOffset<float>> co(3);
+    for (int a = 0; a < 3; ++a) co[a] = kernel1d(st.ks[a].lo, st.ks[a].v, st.sk);
+    p.reset(new SeparableConvolutionImageFilter<float>(co));
+  } else if (st.t == 1) p.reset(new MedianImageFilter3D<float>(CartesianCoordinate3D<int>(st.r[0], st.r[1], st.r[2])));
+  else if (st.t == 2) {
+    TruncateToCylindricalFOVImageProcessor<float>* t = new TruncateToCylindricalFOVImageProcessor<float>();
+    t->set_strictly_less_than_radius(st.strict); t->set_truncate_rim(st.rim);
+    p.reset(t);
+  }
+  return p;
+}
+static std::string stage_json(const Stage& st) {
+  vh::Json j;
+  if (st.t == 0) {
+    std::vector<int> klo = { st.ks[0].lo, st.ks[1].lo, st.ks[2].lo };
+    std::vector<std::vector<long long>> kv = { st.ks[0].v, st.ks[1].v, st.ks[2].v };
+    j.str("t", "conv").arr("klo", klo).arr2("kv", kv);
+  } else if (st.t == 1) j.str("t", "median").arr("r", v3(st.r));
+  else if (st.t == 2) j.str("t", "trunc").num("rim", st.rim).boolean("strict", st.strict);
+  else j.str("t", "none");
+  return j.done();
+}
+static int stage_bits(const Stage& st) {
+  if (st.t == 0) { int b = 0; for (int a = 0; a < 3; ++a) if (!st.ks[a].v.empty()) b += st.sk; return b; }
+  return st.t == 1 ? 1 : 0;
+}
+static Stage rand_stage(vh::Rng& rng, int t) {
+  Stage st; st.t = t; st.sk = rng.range(0, 1); st.rim = rng.range(0, 1); st.strict = rng.coin();
+  for (int a = 0; a < 3; ++a) {
+    const int len = rng.range(0, 2);
+    st.ks[a].lo = len == 0 ? 0 : rng.range(-1, 1); st.ks[a].v = rand_vals(rng, len, 3); st.ks[a].bc = 0;
+    st.r[a] = rng.range(0, 1);
+  }
+  return st;
+}
+// shape 0: (A,B)  1: (A,(B,C))  2: ((A,B),C); "none" stages are null pointers
+static shared_ptr<Proc> make_chain(const std::vector<Stage>& st, int shape) {
+  typedef ChainedDataProcessor<DiscretisedDensity<3, float>> Chain;
+  if (shape == 0) return shared_ptr<Proc>(new Chain(make_proc(st[0]), make_proc(st[1])));
+  if (shape == 1) return shared_ptr<Proc>(new Chain(make_proc(st[0]), shared_ptr<Proc>(new Chain(make_proc(st[1]), make_proc(st[2])))));
+  return shared_ptr<Proc>(new Chain(shared_ptr<Proc>(new Chain(make_proc(st[0]), make_proc(st[1]))), make_proc(st[2])));
+}
+static void one_chain(vh::Trace& tr, const std::vector<Stage>& st, int shape, int via, const A3& d, int sd) {
+  Array<3, float> in = to_array<3>(d, sd);
+  Array<3, float> out(in.get_index_range());
+  out.fill(777.F);
+  Array<3, float>* res = &in;
+  bool err = vh::threw([&] {
+    shared_ptr<Proc> c = make_chain(st, shape);
+    VoxelsOnCartesianGrid<float> image = as_image(in), image_out = as_image(out);
+    if (via == 0) { if (c->apply(image) != Succeeded::yes) throw std::runtime_error("apply"); in = image; }
+    else { if (c->apply(image_out, image) != Succeeded::yes) throw std::runtime_error("apply"); out = image_out; res = &out; }
+  });
+  std::string sj = "[";
+  int so = sd;
+  for (size_t i = 0; i < st.size(); ++i) { sj += (i ? "," : "") + stage_json(st[i]); so += stage_bits(st[i]); }
+  vh::Json j("CHAIN");
+  j.num("id", ++ev_id).num("shape", shape).num("via", via).raw("stages", sj + "]").arr("dlo", v3(d.lo)).arr("dn", v3(d.n)).arr("d", d.v).num("sd", sd).boolean("err", err);
+  if (!err) { long long rs = 0; j.arr("o", from_array<3>(*res, d.lo, d.n, so, &rs)).num("res", rs); }
+  tr.emit(j);
+}
+static void one_trunc(vh::Trace& tr, int via, int rim, bool strict, const A3& d, int sd) {
+  Array<3, float> in = to_array<3>(d, sd);
+  Array<3, float> out(in.get_index_range());
+  out.fill(777.F);
+  Array<3, float>* res = &in;
+  bool err = vh::threw([&] {
+    TruncateToCylindricalFOVImageProcessor<float> f;
+    f.set_strictly_less_than_radius(strict); f.set_truncate_rim(rim);
+    VoxelsOnCartesianGrid<float> image = as_image(in), image_out = as_image(out);
+    if (via == 0) { if (f.apply(image) != Succeeded::yes) throw std::runtime_error("apply"); in = image; }
+    else { if (f.apply(image_out, image) != Succeeded::yes) throw std::runtime_error("apply"); out = image_out; res = &out; }
+  });
+  vh::Json j("TRUNC");
+  j.num("id", ++ev_id).num("via", via).num("rim", rim).boolean("strict", strict).arr("dlo", v3(d.lo)).arr("dn", v3(d.n)).arr("d", d.v).num("sd", sd).boolean("err", err);
+  if (!err) { long long rs = 0; j.arr("o", from_array<3>(*res, d.lo, d.n, sd, &rs)).num("res", rs); }
+  tr.emit(j);
+}
+template <int D> static void one_on1(vh::Trace& tr, int via, int klo, const std::vector<long long>& kv, int sk, int bc, const A3& d, int sd, int olo1, int on1) {
+  if (kv.empty()) sk = 0;
+  Array<D, float> in = to_array<D>(d, sd);
+  int olo[3] = { d.lo[0], d.lo[1], d.lo[2] }, on[3] = { d.n[0], d.n[1], d.n[2] };
+  if (via == 1) { olo[3 - D] = olo1; on[3 - D] = on1; }
+  Array<D, float> out(range_of<D>(olo, on));
+  out.fill(777.F);
+  Array<D, float>* res = &in;
+  bool err = vh::threw([&] {
+    shared_ptr<ArrayFunctionObject<1, float>> f(new ArrayFilter1DUsingConvolution<float>(kernel1d(klo, kv, sk), BCV[bc]));
+    if (via == 0) in_place_apply_array_function_on_1st_index(in, f);
+    else { apply_array_function_on_1st_index(out, in, f); res = &out; }
+  });
+  vh::Json j("ON1");
+  j.num("id", ++ev_id).num("dim", D).num("via", via).str("bc", BCN[bc]).num("klo", klo).arr("k", kv).num("sk", sk).arr("dlo", v3(d.lo)).arr("dn", v3(d.n)).arr("d", d.v).num("sd", sd)
+      .arr("olo", v3(olo)).arr("on", v3(on)).boolean("err", err);
+  if (!err) { long long rs = 0; j.arr("o", from_array<D>(*res, olo, on, sk + sd, &rs)).num("res", rs); }
+  tr.emit(j);
+}
+template <int D> static void one_elt(vh::Trace& tr, const char* fn, const A3& d, int sx, int fk) {
+  Array<D, float> a = to_array<D>(d, sx);
+  bool err = vh::threw([&] {
+    if (fn[0] == 'a') in_place_abs(a); else if (fn[0] == 'l') in_place_log(a); else in_place_exp(a);
+  });
+  vh::Json j("ELT");
+  j.num("id", ++ev_id).str("fn", fn).num("dim", D).arr("lo", v3(d.lo)).arr("n", v3(d.n)).arr("x", d.v).num("sx", sx).num("fk", fk).boolean("err", err);
+  if (!err) { long long rs = 0; j.arr("o", from_array<D>(a, d.lo, d.n, fk, &rs)).num("res", rs); }
+  tr.emit(j);
+}
+static void one_ramp(vh::Trace& tr, int L, float alpha, float fc, float sampledist) {
+  vh::Json j("RAMP");
+  j.num("id", ++ev_id).num("L", L).num("alpha", vh::fx(alpha, 10)).num("fc", vh::fx(fc, 10)).num("sampledist", vh::fx(sampledist, 10)).num("hk", 20);
+  bool err = vh::threw([&] {
+    RampFilter f(sampledist, L, alpha, fc);
+    Array<1, float> in(0, 0); in[0] = 1.F;
+    Array<1, float> out(-(L / 2), L / 2 - 1);
+    f(out, in);
+    int lo[3] = { 0, 0, -(L / 2) }, n[3] = { 1, 1, L };
+    j.arr("h", from_array<1>(out, lo, n, 20, nullptr));
+  });
+  j.boolean("err", err);
+  tr.emit(j);
+}
+// parameter_info() -> parse(): apply the original and the re-parsed processor to the same data
+static void one_rt(vh::Trace& tr, const char* type, Proc& first, Proc& second, const A3& d, int sd, int fk) {
+  Array<3, float> in = to_array<3>(d, sd);
+  bool parsed = false;
+  vh::Json j("RT");
+  j.num("id", ++ev_id).str("type", type).arr("dlo", v3(d.lo)).arr("dn", v3(d.n)).arr("d", d.v).num("sd", sd).num("fk", fk);
+  bool err = vh::threw([&] {
+    SilenceStdout s;
+    const std::string text = first.parameter_info();
+    std::istringstream is(text);
+    parsed = second.parse(is);
+    VoxelsOnCartesianGrid<float> i1 = as_image(in), i2 = as_image(in);
+    if (first.apply(i1) != Succeeded::yes) throw std::runtime_error("apply");
+    if (parsed && second.apply(i2) != Succeeded::yes) throw std::runtime_error("apply");
+    j.arr("o1", from_array<3>(i1, d.lo, d.n, fk, nullptr)).arr("o2", from_array<3>(i2, d.lo, d.n, fk, nullptr));
+  });
+  j.boolean("parsed", parsed).boolean("err", err);
+  tr.emit(j);
+}
+
+static void mode_more(vh::Trace& tr, long count, vh::Rng& rng) {
+  for (long it = 0; it < count; ++it) {
+    int dlo[3], dn[3];
+    for (int a = 0; a < 3; ++a) { dlo[a] = rng.range(-3, 3); dn[a] = rng.range(1, 5); }
+    // median / minimal
+    { int r[3]; for (int a = 0; a < 3; ++a) r[a] = rng.range(0, 9) == 0 ? 2 : rng.range(0, 1);
+      if (it % 7 == 0) r[0] = r[1] = r[2] = 0;
+      const bool median = it % 3 != 2;
+      one_med(tr, median, median ? (int)(it % 4) : (int)(it % 2), r, rand_array(rng, dlo, dn, 15), rng.range(0, 2)); }
+    // threshold
+    { A3 d = rand_array(rng, dlo, dn, 20);
+      if (it % 5 == 0) for (auto& x : d.v) x = -std::llabs(x);          // nothing positive
+      if (it % 5 == 1) for (auto& x : d.v) x = std::llabs(x) + 1;      // everything positive
+      one_thr(tr, (int)(it % 2), d, rng.range(0, 3)); }
+    // truncate to cylindrical FOV: odd and even sizes, index ranges around and away from 0
+    { int tlo[3] = { rng.range(-1, 1), 0, 0 }, tn[3] = { rng.range(1, 2), rng.range(1, 9), rng.range(1, 9) };
+      tlo[1] = it % 2 ? -(tn[1] / 2) : rng.range(-6, 3); tlo[2] = it % 3 ? -(tn[2] / 2) : rng.range(-6, 3);
+      A3 d = rand_array(rng, tlo, tn, 15);
+      for (auto& x : d.v) if (x == 0) x = 7;
+      one_trunc(tr, (int)(it % 2), it % 4 == 3 ? rng.range(1, 2) : 0, (it / 2) % 2 == 0, d, rng.range(0, 2)); }
+    // chains
+    { const int shape = (int)(it % 3);
+      std::vector<Stage> st;
+      for (int i = 0; i < (shape == 0 ? 2 : 3); ++i) st.push_back(rand_stage(rng, rng.range(0, 9) == 0 ? 3 : rng.range(0, 2)));
+      int clo[3], cn[3];
+      for (int a = 0; a < 3; ++a) { clo[a] = a == 0 ? rng.range(-1, 1) : -rng.range(1, 3); cn[a] = a == 0 ? rng.range(1, 3) : rng.range(3, 6); }
+      one_chain(tr, st, shape, (int)((it / 3) % 2), rand_array(rng, clo, cn, 12), rng.range(0, 1)); }
+    // apply a 1-D function object on the first index
+    { const int klen = rng.range(0, 3), klo = klen == 0 ? 0 : rng.range(-2, 1), bc = rng.range(0, 1);
+      std::vector<long long> kv = rand_vals(rng, klen, 8);
+      int lo2[3] = { 0, dlo[1], dlo[2] }, n2[3] = { 1, dn[1], dn[2] };
+      const int D = 2 + (int)(it % 2), via = (int)((it / 2) % 2);
+      if (D == 2) one_on1<2>(tr, via, klo, kv, rng.range(0, 2), bc, rand_array(rng, lo2, n2, 15), rng.range(0, 2), lo2[1] + rng.range(-2, 2), rng.range(1, 6));
+      else one_on1<3>(tr, via, klo, kv, rng.range(0, 2), bc, rand_array(rng, dlo, dn, 15), rng.range(0, 2), dlo[0] + rng.range(-2, 2), rng.range(1, 6)); }
+    // elementwise functions
+    { const int D = 1 + (int)(it % 3);
+      int elo[3] = { 0, 0, 0 }, en[3] = { 1, 1, 1 };
+      for (int a = 3 - D; a < 3; ++a) { elo[a] = rng.range(-3, 3); en[a] = rng.range(2, 4); }
+      A3 d = rand_array(rng, elo, en, 100);
+      if (D == 1) { const int sa = rng.range(0, 4); if (D == 1) one_elt<1>(tr, "abs", d, sa, sa); else if (D == 2) one_elt<2>(tr, "abs", d, sa, sa); else one_elt<3>(tr, "abs", d, sa, sa); }
+      // log: data m * 2^j, m in {1,3,5}, always containing 1, 2, 3, 5 (in units of 2^-3)
+      A3 l = d; static const int M[3] = { 1, 3, 5 };
+      for (auto& x : l.v) x = (long long)M[rng.range(0, 2)] << rng.range(0, 9);
+      const long long must[4] = { 8, 16, 24, 40 };
+      if (l.v.size() >= 4) { for (int i = 0; i < 4; ++i) l.v[(size_t)i] = must[i]; for (size_t i = l.v.size() - 1; i > 0; --i) std::swap(l.v[i], l.v[(size_t)rng.range(0, (int)i)]); }
+      else { l.n[2] = 4; l.v.assign(must, must + 4); for (int a = 0; a < 2; ++a) l.n[a] = 1; }
+      A3 e = l; for (auto& x : e.v) x = rng.range(-4, 4);
+      for (int i = 0; i < 3 && (size_t)i < e.v.size(); ++i) e.v[(size_t)i] = i - 1;     // -1, 0, 1
+      const bool isl = it % 2 == 0;
+      const A3& w = isl ? l : e;
+      const long sz = w.size(); (void)sz;
+      if (w.n[0] == 1 && w.n[1] == 1) one_elt<1>(tr, isl ? "log" : "exp", w, isl ? 3 : 0, isl ? 16 : 10);
+      else if (w.n[0] == 1) one_elt<2>(tr, isl ? "log" : "exp", w, isl ? 3 : 0, isl ? 16 : 10);
+      else one_elt<3>(tr, isl ? "log" : "exp", w, isl ? 3 : 0, isl ? 16 : 10); }
+    // parsing round trips
+    { A3 d = rand_array(rng, dlo, dn, 15);
+      const int which = (int)(it % 5);
+      if (which == 0) {
+        SeparableGaussianImageFilter<float> f1, f2;
+        BasicCoordinate<3, float> fw; BasicCoordinate<3, int> mk;
+        for (int a = 1; a <= 3; ++a) { fw[a] = (float)rng.range(0, 24) / 4.F; mk[a] = rng.range(0, 2) == 0 ? -1 : 2 * rng.range(1, 4) + 1; }
+        f1.set_fwhms(fw); f1.set_max_kernel_sizes(mk);
+        one_rt(tr, "gauss_image", f1, f2, d, 0, 14);
+      } else if (which == 1) {
+        FiltCfg c; c.kind = 3;
+        for (int a = 0; a < 3; ++a) { c.fwhm[a] = rng.range(0, 2) == 0 ? 0.F : (float)rng.range(24, 40) / 4.F; c.power[a] = (float)rng.range(0, 4) / 2.F; c.mk[a] = rng.range(0, 1) ? -1 : 2 * rng.range(2, 5) + 1; c.vox[a] = 1.F; }
+        SeparableCartesianMetzImageFilter<float> f1, f2;
+        std::istringstream text(metz_text(c));
+        if (f1.parse(text)) one_rt(tr, "metz_image", f1, f2, d, 0, 14);
+        else tr.emit(vh::Json("RT").num("id", ++ev_id).str("type", "metz_image").boolean("parsed", false).boolean("err", true));
+      } else if (which == 2) {
+        MedianImageFilter3D<float> f1(CartesianCoordinate3D<int>(rng.range(0, 2), rng.range(0, 2), rng.range(0, 2))), f2;
+        one_rt(tr, "median", f1, f2, d, 0, 4);
+      } else if (which == 3) {
+        TruncateToCylindricalFOVImageProcessor<float> f1, f2;
+        f1.set_strictly_less_than_radius(rng.coin());
+        int tlo[3] = { 0, -3, -3 }, tn[3] = { 2, 7, 7 };
+        one_rt(tr, "trunc", f1, f2, rand_array(rng, tlo, tn, 15), 0, 4);
+      } else {
+        std::vector<Stage> st;
+        for (int i = 0; i < 3; ++i) st.push_back(rand_stage(rng, rng.range(0, 2)));
+        for (auto& s : st) s.rim = 0;     // the rim is not a parsing key
+        shared_ptr<Proc> f1 = make_chain(st, (int)((it / 5) % 3));
+        ChainedDataProcessor<DiscretisedDensity<3, float>> f2;
+        int clo[3] = { 0, -2, -3 }, cn[3] = { 2, 5, 6 };
+        one_rt(tr, "chain", *f1, f2, rand_array(rng, clo, cn, 12), 0, 6);
+      } }
+  }
+  // ramp filter: every power-of-two length 8..256, plain ramp and windowed / lower cut-off variants
+  for (int L = 8; L <= 256; L *= 2)
+    for (int v = 0; v < 4; ++v) {
+      static const float AL[4] = { 1.F, 0.5F, 1.F, 0.75F }, FC[4] = { 0.5F, 0.5F, 0.25F, 0.375F };
+      one_ramp(tr, L, AL[v], FC[v], v % 2 ? 2.5F : 1.F);
+    }
+}
+
 int main(int argc, char** argv) {
-  if (argc < 3) { fprintf(stderr, "usage: c19_fourier conv|dft|filt <out.ndjson> [args]\n"); return 2; }
+  if (argc < 3) { fprintf(stderr, "usage: c19_fourier conv|dft|filt|more <out.ndjson> [args]\n"); return 2; }
   const std::string mode = argv[1];
   if (!getenv("VERIF_STDERR")) { if (!freopen("/dev/null", "w", stderr)) return 3; }
   Verbosity::set(0);
@@ -650,6 +994,7 @@ int main(int argc, char** argv) {
   if (mode == "conv") mode_conv(tr, argc > 3 ? atol(argv[3]) : 200, argc > 4 ? atoi(argv[4]) : 0, rng);
   else if (mode == "dft") mode_dft(tr, argc > 3 ? atol(argv[3]) : 1024, argc > 4 ? atoi(argv[4]) : 1, rng, argc > 5 ? atoi(argv[5]) : 256);
   else if (mode == "filt") mode_filt(tr, argc > 3 ? atol(argv[3]) : 30, rng);
+  else if (mode == "more") mode_more(tr, argc > 3 ? atol(argv[3]) : 30, rng);
   else return 2;
   return 0;
 }
